@@ -540,12 +540,20 @@ def b_eigensolve(V, cfg):
     A = Q @ D @ Qinv
     if B is not None:
         A = B @ A
-    A = wrap(np.asarray(A, dtype=object)) if V.symbolic else np.asarray(A, dtype=float)
+    # concrete twin / replay: column-major storage, the layout LAPACK can work in without a copy
+    A = wrap(np.asarray(A, dtype=object)) if V.symbolic else np.asfortranarray(np.asarray(A, dtype=float))
     if V.symbolic and not cfg.get("sym", False):
         V.assume(A[0, 1] != A[1, 0], "general class: A not symmetric (the symmetric class has its own items)")
+    if V.symbolic:
+        # witnesses for the replay: a generic (not nearly diagonal) matrix
+        prefs = []
+        for cond in (abs(A[0, 1]) * 8 >= 1, abs(A[1, 0]) * 8 >= 1, abs(W[0] - W[1]) * 8 >= 1):
+            if isinstance(cond, SB):
+                prefs.append(cond.t)
+        V.c.witness_prefs = list(getattr(V.c, "witness_prefs", None) or []) + prefs
     sigs = [pym.Signal("A", A)]
     if B is not None:
-        sigs.append(pym.Signal("B", wrap(np.asarray(B, dtype=object)) if V.symbolic else np.asarray(B, dtype=float)))
+        sigs.append(pym.Signal("B", wrap(np.asarray(B, dtype=object)) if V.symbolic else np.asfortranarray(np.asarray(B, dtype=float))))
     m = pym.EigenSolve(sigs)
     if V.symbolic:
         from symx import factor
